@@ -462,6 +462,7 @@ func (s *Sim) newTask(parent *Task, entry string, arg interface{}) *Task {
 //go:norace
 func (s *Sim) startTask(t *Task, fn func()) {
 	go func() {
+		exited := false
 		raceDisable()
 		t.goid = goid()
 		regStore(t)
@@ -475,7 +476,7 @@ func (s *Sim) startTask(t *Task, fn func()) {
 			regDelete(t)
 			s.lock()
 			atomic.StoreInt32(&t.state, stDone)
-			if !s.killing {
+			if !s.killing && !exited {
 				s.emitLocked(t, "exit", 0, "")
 			}
 			s.unlock()
@@ -489,6 +490,12 @@ func (s *Sim) startTask(t *Task, fn func()) {
 		atomic.StoreInt32(&t.state, stRunning)
 		raceEnable()
 		fn()
+		// the end of a task is a scheduling point: tasks released together (a closed channel,
+		// a broadcast) would otherwise record their exits in the Go runtime's order
+		if !t.killed.Load() {
+			exited = true
+			t.Park(OpExit, 0, nil, nil)
+		}
 	}()
 }
 
